@@ -1083,7 +1083,7 @@ def vt_instance_signature(fn_name, generics, param, ret_elem):
         if not n:
             return None
         new, n = re.subn(r"\bfn\s+verify_threshold\b", "fn " + fn_name, new, count=1)
-        return new if n else None
+        return C.subst_type_param_path(new, "E", "Error") if n else None
     return rw
 
 
